@@ -18,7 +18,7 @@ out = {
     },
     "engines": [
         {"name": "vmc", "path": "engine/", "serves_properties": sorted(checks.CHECKS.keys()),
-         "kind_free_text": "stateless model checker for the real C++ code: controlled scheduler over hooked std synchronisation primitives, preemption-bounded exhaustive DFS with happens-before-prefix caching, exhaustive data-choice enumeration, forked workers with crash containment, AddressSanitizer as oracle, deterministic replay"},
+         "kind_free_text": "stateless model checker for the real C++ code: controlled scheduler over hooked std synchronisation primitives, preemption-bounded exhaustive DFS with happens-before-prefix caching, exhaustive data-choice enumeration, store-buffer (x86-TSO) and spurious-wake-up deviations under the same budget, forked workers with crash containment, AddressSanitizer / ThreadSanitizer as oracles, deterministic replay"},
     ],
     "checks": [],
     "not_applicable": [],
@@ -35,7 +35,7 @@ for p in props:
             "evidence_file": "evidence/%s.json" % pid,
             "replay_cmd_template": "python3 tools/check.py %s --replay {path}" % pid,
             "engine": "vmc",
-            "level_claimed": {"category": "model_checking", "text": m.get("text", ""), "design_ref": m.get("design_ref", "DESIGN.md §3 " + pid)},
+            "level_claimed": {"category": "model_checking", "text": m.get("text", "") + mm.ADDENDA.get(pid, ""), "design_ref": m.get("design_ref", "DESIGN.md §3 " + pid)},
             "level_note": m.get("note", mm.DEFAULT_NOTE),
             "technique": m.get("technique", "stateless model checking of the implementation: exhaustive preemption-bounded schedule enumeration under a controlled scheduler"),
         })
